@@ -131,3 +131,745 @@ Proof.
   destruct (images_differ (pd_containers p) (pd_containers old));
   destruct (images_differ (pd_init p) (pd_init old)); reflexivity.
 Qed.
+
+(* ------------------------------------------------ trace observation helpers *)
+
+Lemma B_has_eval_app a b : has_eval (a +:+ b) = has_eval a || has_eval b.
+Proof. apply existsb_app. Qed.
+Lemma B_count_ev_app f a b : count_ev f (a +:+ b) = count_ev f a + count_ev f b.
+Proof. unfold count_ev. now rewrite filter_app, app_length. Qed.
+Lemma B_eval_events_app a b : eval_events (a +:+ b) = eval_events a +:+ eval_events b.
+Proof. apply flat_map_app. Qed.
+
+(* ------------------------------------------------ Admission.EvaluatePod *)
+
+Ltac B_split_ifs :=
+  repeat (cbv beta iota zeta; cbn [cache_get app rs_allowed allowed_fresh forbidden negb];
+          match goal with
+          | |- context[if ?b then _ else _] => destruct b eqn:?
+          end).
+
+Definition epr_tr0 (errs : list ferr) : list event := if is_nil errs then [] else [MError false].
+
+Lemma B_epr_exempt c ev pol errs p m :
+  s_exempt_rc c p = true -> evaluate_pod_request c ev pol errs p m = (shared_runtimeclass, [MExempt]).
+Proof. intros E. unfold evaluate_pod_request. rewrite B_exempt_rc_spec, E. reflexivity. Qed.
+
+Lemma B_epr_noex c ev pol errs p m :
+  s_exempt_rc c p = false ->
+  evaluate_pod_request c ev pol errs p m = evaluate_pod_request (no_exemptions c) ev pol errs p m.
+Proof. intros E. unfold evaluate_pod_request. rewrite B_exempt_rc_spec, E, B_noex_rc. reflexivity. Qed.
+
+Lemma B_epr_char c ev pol errs p m :
+  s_exempt_rc c p = false ->
+  let o := evaluate_pod_request c ev pol errs p m in
+  rs_allowed (fst o) = negb m || forallb cr_allowed (ev (enforce pol) p)
+  /\ ann "exempt" (fst o) = None
+  /\ has_error_ann (fst o) = negb (is_nil errs)
+  /\ (m = true -> exists tr', snd o = epr_tr0 errs +:+ EvEval (enforce pol) (pd_name p) :: tr')
+  /\ count_ev (is_merror false) (snd o) = (if is_nil errs then 0 else 1)
+  /\ count_ev is_mexempt (snd o) = 0
+  /\ count_ev (is_merror true) (snd o) = 0
+  /\ has_eval (snd o) = true
+  /\ existsb is_list (snd o) = false.
+Proof.
+  intros E o. subst o. unfold evaluate_pod_request, epr_tr0. rewrite B_exempt_rc_spec, E.
+  rewrite <- B_ag_allowed.
+  B_split_ifs; cbv beta iota zeta; cbn [cache_get app rs_allowed allowed_fresh forbidden negb].
+  all: repeat split; try reflexivity; try discriminate; try (intros _; eexists; reflexivity).
+Qed.
+
+Lemma B_epr_enforce_evaluated c ev pol errs p :
+  s_exempt_rc c p = false ->
+  existsb (fun e => lv_eqb (fst e) (enforce pol))
+          (eval_events (snd (evaluate_pod_request c ev pol errs p true))) = true.
+Proof.
+  intros E. destruct (B_epr_char c ev pol errs p true E) as (_ & _ & _ & H & _).
+  destruct (H eq_refl) as [tr' ->]. rewrite B_eval_events_app, existsb_app.
+  cbn [eval_events flat_map app existsb fst]. now rewrite lv_eqb_refl, orb_true_r.
+Qed.
+
+(* ------------------------------------------------ outcomes of ValidatePod *)
+
+Definition pod_guards (c : config) (r : request) : Prop :=
+  s_ignored_sub (r_subresource r) = false
+  /\ s_exempt (r_namespace r) (cf_ex_namespaces c) = false
+  /\ s_exempt (r_user r) (cf_ex_users c) = false.
+
+Definition pod_priv (c : config) (ls : labels) : bool :=
+  is_nil (spec_errs ls) && s_fully_privileged (spec_policy ls (cf_defaults c)).
+
+(** the trace prefix before evaluation, and the facts that lead there *)
+Definition pod_pre (r : request) (p : pod) (pre : list event) : Prop :=
+  match r_op r with
+  | OpUpdate => exists old, r_old r = OPod old /\ s_significant p old = true
+                            /\ pre = [EvNsLookup; EvDecode; EvDecodeOld]
+  | _ => pre = [EvNsLookup; EvDecode]
+  end.
+
+Inductive pod_outcome (c : config) (ev : evaluator) (r : request) (w : world) : obs -> Prop :=
+| PO_ignored : s_ignored_sub (r_subresource r) = true -> pod_outcome c ev r w (shared_allowed, [])
+| PO_exns : s_ignored_sub (r_subresource r) = false ->
+    s_exempt (r_namespace r) (cf_ex_namespaces c) = true ->
+    pod_outcome c ev r w (shared_namespace, [MExempt])
+| PO_exuser : s_ignored_sub (r_subresource r) = false ->
+    s_exempt (r_namespace r) (cf_ex_namespaces c) = false ->
+    s_exempt (r_user r) (cf_ex_users c) = true ->
+    pod_outcome c ev r w (shared_user, [MExempt])
+| PO_nons : pod_guards c r -> w_ns w = None ->
+    pod_outcome c ev r w (internal_error ("failed to lookup namespace " ++ go_quote (r_namespace r)),
+                          [EvNsLookup; MError true])
+| PO_priv ls : pod_guards c r -> w_ns w = Some ls -> pod_priv c ls = true ->
+    pod_outcome c ev r w (shared_privileged,
+                          [EvNsLookup; MEval false (enforce (spec_policy ls (cf_defaults c))) ModeEnforce])
+| PO_badobj ls msg : pod_guards c r -> w_ns w = Some ls -> pod_priv c ls = false ->
+    match r_object r with OPod _ => False | _ => True end ->
+    pod_outcome c ev r w (bad_request msg, [EvNsLookup; EvDecode; MError true])
+| PO_badold ls p msg : pod_guards c r -> w_ns w = Some ls -> pod_priv c ls = false ->
+    r_object r = OPod p -> r_op r = OpUpdate ->
+    match r_old r with OPod _ => False | _ => True end ->
+    pod_outcome c ev r w (bad_request msg, [EvNsLookup; EvDecode; EvDecodeOld; MError true])
+| PO_insig ls p old : pod_guards c r -> w_ns w = Some ls -> pod_priv c ls = false ->
+    r_object r = OPod p -> r_op r = OpUpdate -> r_old r = OPod old -> s_significant p old = false ->
+    pod_outcome c ev r w (shared_allowed, [EvNsLookup; EvDecode; EvDecodeOld])
+| PO_rc ls p pre : pod_guards c r -> w_ns w = Some ls -> pod_priv c ls = false ->
+    r_object r = OPod p -> pod_pre r p pre -> s_exempt_rc c p = true ->
+    pod_outcome c ev r w (shared_runtimeclass, pre +:+ [MExempt])
+| PO_eval ls p pre : pod_guards c r -> w_ns w = Some ls -> pod_priv c ls = false ->
+    r_object r = OPod p -> pod_pre r p pre -> s_exempt_rc c p = false ->
+    pod_outcome c ev r w
+      (fst (evaluate_pod_request c ev (spec_policy ls (cf_defaults c)) (spec_errs ls) p true),
+       pre +:+ snd (evaluate_pod_request c ev (spec_policy ls (cf_defaults c)) (spec_errs ls) p true)).
+
+Lemma B_pod_eval_outcome c ev r w ls p pre :
+  pod_guards c r -> w_ns w = Some ls -> pod_priv c ls = false -> r_object r = OPod p -> pod_pre r p pre ->
+  pod_outcome c ev r w
+    (fst (evaluate_pod_request c ev (spec_policy ls (cf_defaults c)) (spec_errs ls) p true),
+     pre +:+ snd (evaluate_pod_request c ev (spec_policy ls (cf_defaults c)) (spec_errs ls) p true)).
+Proof.
+  intros G Hw Hp Ho Hpre. destruct (s_exempt_rc c p) eqn:Erc.
+  - rewrite (B_epr_exempt _ _ _ _ _ _ Erc). cbn [fst snd]. eapply PO_rc; eauto.
+  - eapply PO_eval; eauto.
+Qed.
+
+Lemma B_pod_outcome c ev r w : pod_outcome c ev r w (validate_pod c ev r w).
+Proof.
+  unfold validate_pod. rewrite B_ignored_spec, B_exempt_ns_spec, B_exempt_user_spec.
+  destruct (s_ignored_sub (r_subresource r)) eqn:Hi; [now apply PO_ignored|].
+  destruct (s_exempt (r_namespace r) (cf_ex_namespaces c)) eqn:Hn; [now apply PO_exns|].
+  destruct (s_exempt (r_user r) (cf_ex_users c)) eqn:Hu; [now apply PO_exuser|].
+  assert (G : pod_guards c r) by (repeat split; assumption).
+  destruct (w_ns w) as [ls|] eqn:Hw; [|now apply PO_nons].
+  rewrite policy_to_evaluate_spec. cbv beta iota zeta. rewrite B_fully_priv_spec.
+  fold (pod_priv c ls).
+  destruct (pod_priv c ls) eqn:Hp; [eapply PO_priv; eauto|].
+  destruct (r_object r) as [m| |p|n l|k t|s] eqn:Ho;
+    try (eapply PO_badobj; eauto; rewrite Ho; exact I).
+  rewrite !B_let_pair.
+  destruct (r_op r) as [| |raw] eqn:Hop; cbn [is_update].
+  - eapply B_pod_eval_outcome; eauto. unfold pod_pre. now rewrite Hop.
+  - destruct (r_old r) as [m| |old|n l|k t|s] eqn:Hold;
+      try (eapply PO_badold; eauto; rewrite Hold; exact I).
+    rewrite B_significant_spec.
+    destruct (s_significant p old) eqn:Hs.
+    + eapply B_pod_eval_outcome; eauto. unfold pod_pre. rewrite Hop. eauto.
+    + eapply PO_insig; eauto.
+  - eapply B_pod_eval_outcome; eauto. unfold pod_pre. now rewrite Hop.
+Qed.
+
+(* ------------------------------------------ outcomes of ValidatePodController *)
+
+Definition ctrl_guards (c : config) (r : request) : Prop :=
+  String.eqb (r_subresource r) "" = true
+  /\ s_exempt (r_namespace r) (cf_ex_namespaces c) = false
+  /\ s_exempt (r_user r) (cf_ex_users c) = false.
+
+Definition ctrl_priv (c : config) (ls : labels) : bool :=
+  is_nil (spec_errs ls) && level_eqb (lv_level (warn (spec_policy ls (cf_defaults c)))) Privileged
+  && level_eqb (lv_level (audit (spec_policy ls (cf_defaults c)))) Privileged.
+
+Inductive ctrl_outcome (c : config) (ev : evaluator) (r : request) (w : world) : obs -> Prop :=
+| CO_sub : String.eqb (r_subresource r) "" = false -> ctrl_outcome c ev r w (shared_allowed, [])
+| CO_exns : String.eqb (r_subresource r) "" = true ->
+    s_exempt (r_namespace r) (cf_ex_namespaces c) = true ->
+    ctrl_outcome c ev r w (shared_namespace, [MExempt])
+| CO_exuser : String.eqb (r_subresource r) "" = true ->
+    s_exempt (r_namespace r) (cf_ex_namespaces c) = false ->
+    s_exempt (r_user r) (cf_ex_users c) = true ->
+    ctrl_outcome c ev r w (shared_user, [MExempt])
+| CO_nons msg : ctrl_guards c r -> w_ns w = None ->
+    ctrl_outcome c ev r w (allowed_with_error msg, [EvNsLookup; MError true])
+| CO_priv ls : ctrl_guards c r -> w_ns w = Some ls -> ctrl_priv c ls = true ->
+    ctrl_outcome c ev r w (shared_allowed, [EvNsLookup])
+| CO_bad ls msg : ctrl_guards c r -> w_ns w = Some ls -> ctrl_priv c ls = false ->
+    match r_object r with OPod _ | OController _ _ => False | _ => True end ->
+    ctrl_outcome c ev r w (allowed_with_error msg, [EvNsLookup; EvDecode; MError true])
+| CO_notmpl ls k : ctrl_guards c r -> w_ns w = Some ls -> ctrl_priv c ls = false ->
+    r_object r = OController k None ->
+    ctrl_outcome c ev r w (shared_allowed, [EvNsLookup; EvDecode])
+| CO_rc ls p : ctrl_guards c r -> w_ns w = Some ls -> ctrl_priv c ls = false ->
+    request_pod r = Some p -> s_exempt_rc c p = true ->
+    ctrl_outcome c ev r w (shared_runtimeclass, [EvNsLookup; EvDecode] +:+ [MExempt])
+| CO_eval ls p : ctrl_guards c r -> w_ns w = Some ls -> ctrl_priv c ls = false ->
+    request_pod r = Some p -> s_exempt_rc c p = false ->
+    ctrl_outcome c ev r w
+      (fst (evaluate_pod_request c ev (spec_policy ls (cf_defaults c)) (spec_errs ls) p false),
+       [EvNsLookup; EvDecode] +:+
+       snd (evaluate_pod_request c ev (spec_policy ls (cf_defaults c)) (spec_errs ls) p false)).
+
+Lemma B_ctrl_eval_outcome c ev r w ls p :
+  ctrl_guards c r -> w_ns w = Some ls -> ctrl_priv c ls = false -> request_pod r = Some p ->
+  ctrl_outcome c ev r w
+    (fst (evaluate_pod_request c ev (spec_policy ls (cf_defaults c)) (spec_errs ls) p false),
+     [EvNsLookup; EvDecode] +:+
+     snd (evaluate_pod_request c ev (spec_policy ls (cf_defaults c)) (spec_errs ls) p false)).
+Proof.
+  intros G Hw Hp Ho. destruct (s_exempt_rc c p) eqn:Erc.
+  - rewrite (B_epr_exempt _ _ _ _ _ _ Erc). cbn [fst snd]. eapply CO_rc; eauto.
+  - eapply CO_eval; eauto.
+Qed.
+
+Lemma B_ctrl_outcome c ev r w : ctrl_outcome c ev r w (validate_controller c ev r w).
+Proof.
+  unfold validate_controller. rewrite B_exempt_ns_spec, B_exempt_user_spec.
+  destruct (String.eqb (r_subresource r) "") eqn:Hi; cbn [negb]; [|now apply CO_sub].
+  destruct (s_exempt (r_namespace r) (cf_ex_namespaces c)) eqn:Hn; [now apply CO_exns|].
+  destruct (s_exempt (r_user r) (cf_ex_users c)) eqn:Hu; [now apply CO_exuser|].
+  assert (G : ctrl_guards c r) by (repeat split; assumption).
+  destruct (w_ns w) as [ls|] eqn:Hw; [|now apply CO_nons].
+  rewrite policy_to_evaluate_spec. cbv beta iota zeta.
+  fold (ctrl_priv c ls).
+  destruct (ctrl_priv c ls) eqn:Hp; [eapply CO_priv; eauto|].
+  destruct (r_object r) as [m| |p|n l|k [t|]|s] eqn:Ho; cbn [extract_pod_spec];
+    try (eapply CO_bad; eauto; rewrite Ho; exact I).
+  - rewrite B_let_pair. eapply B_ctrl_eval_outcome; eauto. unfold request_pod. now rewrite Ho.
+  - rewrite B_let_pair. eapply B_ctrl_eval_outcome; eauto. unfold request_pod. now rewrite Ho.
+  - eapply CO_notmpl; eauto.
+Qed.
+
+(* ------------------------------------------------------------------ C10 *)
+
+Definition as_create (r : request) : request :=
+  Request (r_group r) (r_resource r) (r_subresource r) (r_namespace r) (r_name r) (r_user r)
+          OpCreate (r_object r) (r_old r) (r_deadline r).
+Definition without_sub (r : request) : request :=
+  Request (r_group r) (r_resource r) "" (r_namespace r) (r_name r) (r_user r)
+          (r_op r) (r_object r) (r_old r) (r_deadline r).
+
+Ltac B_norm_hyps :=
+  repeat match goal with
+  | H : pod_pre _ _ _ |- _ => unfold pod_pre in H
+  | H : context[match r_op ?r with _ => _ end], E : r_op ?r = _ |- _ => rewrite E in H
+  | H : context[match r_object ?r with _ => _ end], E : r_object ?r = _ |- _ => rewrite E in H
+  | H : context[match r_old ?r with _ => _ end], E : r_old ?r = _ |- _ => rewrite E in H
+  | H : False |- _ => destruct H
+  | H : exists _, _ |- _ => destruct H
+  | H : _ /\ _ |- _ => destruct H
+  end.
+Ltac B_contra := B_norm_hyps; try congruence.
+
+Ltac B_pod_out c ev r w :=
+  let o := fresh "o" in let O := fresh "O" in
+  generalize (B_pod_outcome c ev r w); generalize (validate_pod c ev r w); intros o O; destruct O.
+
+Lemma B_vp_without_sub c ev r w :
+  s_ignored_sub (r_subresource r) = false -> validate_pod c ev (without_sub r) w = validate_pod c ev r w.
+Proof.
+  intros H. unfold validate_pod.
+  cbn [without_sub r_subresource r_namespace r_user r_op r_object r_old].
+  rewrite (B_ignored_spec (r_subresource r)), H. reflexivity.
+Qed.
+
+Lemma B_vp_as_create c ev r w p old :
+  r_op r = OpUpdate -> r_object r = OPod p -> r_old r = OPod old -> s_significant p old = true ->
+  fst (validate_pod c ev (as_create r) w) = fst (validate_pod c ev r w).
+Proof.
+  intros Hop Ho Hold Hs. unfold validate_pod.
+  cbn [as_create r_subresource r_namespace r_user r_op r_object r_old].
+  rewrite Hop, Ho, Hold. cbn [is_update]. rewrite B_significant_spec, Hs.
+  destruct (mem (r_subresource r) ignored_pod_subresources); [reflexivity|].
+  destruct (exempt_namespace c (r_namespace r)); [reflexivity|].
+  destruct (exempt_user c (r_user r)); [reflexivity|].
+  destruct (w_ns w) as [ls|]; [|reflexivity].
+  destruct (policy_to_evaluate ls (cf_defaults c)) as [pol errs].
+  destruct (is_nil errs && fully_privileged pol); [reflexivity|].
+  rewrite !B_let_pair. reflexivity.
+Qed.
+
+Lemma C10_updates_and_subresources_proof c ev r w :
+  P10 c r w (validate c ev r w) (Some (validate c ev (as_create r) w))
+      (Some (validate c ev (without_sub r) w)) = true.
+Proof.
+  unfold P10. destruct (is_pods r) eqn:Hp; cbn [negb]; [|reflexivity].
+  rewrite (B_validate_pods c ev r w Hp), (B_validate_pods c ev (as_create r) w Hp),
+          (B_validate_pods c ev (without_sub r) w Hp).
+  destruct (s_ignored_sub (r_subresource r)) eqn:Hi.
+  - unfold validate_pod. rewrite B_ignored_spec, Hi. reflexivity.
+  - rewrite (B_vp_without_sub c ev r w Hi), B_resp_eqb_refl. cbn [andb].
+    destruct (r_op r) eqn:Hop; try reflexivity.
+    destruct (r_object r) as [| |p| | |] eqn:Ho; try reflexivity.
+    destruct (r_old r) as [| |old| | |] eqn:Hold; try reflexivity.
+    destruct (s_significant p old) eqn:Hs.
+    + rewrite <- (B_vp_as_create c ev r w p old Hop Ho Hold Hs). apply B_resp_eqb_refl.
+    + destruct (w_ns w) as [ls0|] eqn:Hw; [|reflexivity]. cbn [is_some imp negb orb].
+      B_pod_out c ev r w; try reflexivity; B_contra.
+Qed.
+
+Lemma C10_insignificant_allowed_proof c ev r w ls p old :
+  is_pods r = true -> r_op r = OpUpdate -> r_object r = OPod p -> r_old r = OPod old ->
+  w_ns w = Some ls -> s_significant p old = false ->
+  rs_allowed (fst (validate c ev r w)) = true /\ has_eval (snd (validate c ev r w)) = false.
+Proof.
+  intros Hp Hop Ho Hold Hw Hs. rewrite (B_validate_pods c ev r w Hp).
+  B_pod_out c ev r w; try (split; reflexivity); B_contra.
+Qed.
+
+(* ------------------------------------------------------------------ C06 *)
+
+Ltac B_ctrl_out c ev r w :=
+  let o := fresh "o" in let O := fresh "O" in
+  generalize (B_ctrl_outcome c ev r w); generalize (validate_controller c ev r w); intros o O; destruct O.
+
+Definition exempt_marked_ok (c : config) (r : request) (o : obs) (d : string) : Prop :=
+  dimension_matches c r (request_pod r) d = true /\ rs_allowed (fst o) = true
+  /\ has_eval (snd o) = false /\ count_ev is_mexempt (snd o) = 1 /\ any_dimension_matches c r = true.
+
+Lemma B_P06_from c r w o o0 :
+  is_namespaces r = false ->
+  (forall d, ann "exempt" (fst o) = Some d -> exempt_marked_ok c r o d) ->
+  (ann "exempt" (fst o) = None -> o = o0 /\ count_ev is_mexempt (snd o) = 0) ->
+  P06 c r w o o0 = true.
+Proof.
+  intros Hn Hs Hnone. unfold P06. rewrite Hn.
+  destruct (ann "exempt" (fst o)) as [d|] eqn:Ha.
+  - destruct (Hs d eq_refl) as (H1 & H2 & H3 & H4 & H5).
+    rewrite H1, H2, H3, H4, H5. cbn [negb andb Nat.eqb is_some]. now rewrite B_imp_true_r.
+  - destruct (Hnone eq_refl) as [<- H0]. rewrite H0, B_resp_eqb_refl, andb_negb_r.
+    cbn [is_some andb imp negb orb Nat.eqb]. now rewrite B_imp_true_r.
+Qed.
+
+Lemma B_epr_noex' c ev pol errs p m :
+  ann "exempt" (fst (evaluate_pod_request c ev pol errs p m)) = None ->
+  evaluate_pod_request c ev pol errs p m = evaluate_pod_request (no_exemptions c) ev pol errs p m.
+Proof.
+  destruct (s_exempt_rc c p) eqn:E; [rewrite (B_epr_exempt _ _ _ _ _ _ E); discriminate|].
+  intros _. now apply B_epr_noex.
+Qed.
+
+Lemma B_vp_noex c ev r w :
+  ann "exempt" (fst (validate_pod c ev r w)) = None ->
+  validate_pod c ev r w = validate_pod (no_exemptions c) ev r w.
+Proof.
+  unfold validate_pod. rewrite B_noex_ns, B_noex_user. cbn [no_exemptions cf_defaults].
+  destruct (mem (r_subresource r) ignored_pod_subresources); [reflexivity|].
+  destruct (exempt_namespace c (r_namespace r)); [discriminate|].
+  destruct (exempt_user c (r_user r)); [discriminate|].
+  destruct (w_ns w) as [ls|]; [|reflexivity].
+  destruct (policy_to_evaluate ls (cf_defaults c)) as [pol errs].
+  destruct (is_nil errs && fully_privileged pol); [reflexivity|].
+  destruct (r_object r) as [m| |p|n l|k t|s]; try reflexivity.
+  rewrite !B_let_pair.
+  destruct (is_update (r_op r)); [destruct (r_old r) as [m| |old|n l|k t|s]; try reflexivity;
+                                  destruct (significant_update p old); [|reflexivity]|];
+    cbn [fst]; intros H; now rewrite (B_epr_noex' _ _ _ _ _ _ H).
+Qed.
+
+Lemma B_vc_noex c ev r w :
+  ann "exempt" (fst (validate_controller c ev r w)) = None ->
+  validate_controller c ev r w = validate_controller (no_exemptions c) ev r w.
+Proof.
+  unfold validate_controller. rewrite B_noex_ns, B_noex_user. cbn [no_exemptions cf_defaults].
+  destruct (negb (String.eqb (r_subresource r) "")); [reflexivity|].
+  destruct (exempt_namespace c (r_namespace r)); [discriminate|].
+  destruct (exempt_user c (r_user r)); [discriminate|].
+  destruct (w_ns w) as [ls|]; [|reflexivity].
+  destruct (policy_to_evaluate ls (cf_defaults c)) as [pol errs].
+  destruct (is_nil errs && level_eqb (lv_level (warn pol)) Privileged && level_eqb (lv_level (audit pol)) Privileged);
+    [reflexivity|].
+  destruct (r_object r) as [m| |p|n l|k [t|]|s]; try reflexivity; cbn [extract_pod_spec];
+    rewrite !B_let_pair; cbn [fst]; intros H; now rewrite (B_epr_noex' _ _ _ _ _ _ H).
+Qed.
+
+Lemma B_pre_facts r p pre :
+  pod_pre r p pre -> has_eval pre = false /\ existsb is_list pre = false
+  /\ forall f, (f EvNsLookup = false) -> f EvDecode = false -> f EvDecodeOld = false -> count_ev f pre = 0.
+Proof.
+  unfold pod_pre. destruct (r_op r); [intros ->|intros (old & _ & _ & ->)|intros ->];
+    (split; [reflexivity|split; [reflexivity|]]); intros f H1 H2 H3; unfold count_ev; cbn [filter];
+    now rewrite ?H1, ?H2, ?H3.
+Qed.
+
+Lemma B_pod_marked c ev r w d :
+  ann "exempt" (fst (validate_pod c ev r w)) = Some d -> exempt_marked_ok c r (validate_pod c ev r w) d.
+Proof.
+  B_pod_out c ev r w; intros Ha; try discriminate Ha.
+  - injection Ha as <-. unfold exempt_marked_ok, dimension_matches, any_dimension_matches.
+    rewrite H0. repeat split; reflexivity.
+  - injection Ha as <-. unfold exempt_marked_ok, dimension_matches, any_dimension_matches.
+    rewrite H1. cbn [fst snd]. rewrite !orb_true_r. repeat split; reflexivity.
+  - injection Ha as <-. unfold exempt_marked_ok, dimension_matches, any_dimension_matches, request_pod.
+    rewrite H2, H4. cbn [fst snd]. destruct (B_pre_facts _ _ _ H3) as (P1 & _ & P3).
+    rewrite B_has_eval_app, B_count_ev_app, P1, (P3 is_mexempt) by reflexivity.
+    rewrite !orb_true_r. repeat split; reflexivity.
+  - destruct (B_epr_char c ev (spec_policy ls (cf_defaults c)) (spec_errs ls) p true H4) as (_ & E & _).
+    cbn [fst] in Ha. congruence.
+Qed.
+
+Lemma B_pod_unmarked c ev r w :
+  ann "exempt" (fst (validate_pod c ev r w)) = None -> count_ev is_mexempt (snd (validate_pod c ev r w)) = 0.
+Proof.
+  B_pod_out c ev r w; intros Ha; try discriminate Ha; try reflexivity.
+  destruct (B_epr_char c ev (spec_policy ls (cf_defaults c)) (spec_errs ls) p true H4) as (_ & _ & _ & _ & _ & E & _).
+  destruct (B_pre_facts _ _ _ H3) as (_ & _ & P3). cbn [snd].
+  now rewrite B_count_ev_app, E, (P3 is_mexempt) by reflexivity.
+Qed.
+
+Lemma B_ctrl_marked c ev r w d :
+  ann "exempt" (fst (validate_controller c ev r w)) = Some d ->
+  exempt_marked_ok c r (validate_controller c ev r w) d.
+Proof.
+  B_ctrl_out c ev r w; intros Ha; try discriminate Ha.
+  - injection Ha as <-. unfold exempt_marked_ok, dimension_matches, any_dimension_matches.
+    rewrite H0. repeat split; reflexivity.
+  - injection Ha as <-. unfold exempt_marked_ok, dimension_matches, any_dimension_matches.
+    rewrite H1. cbn [fst snd]. rewrite !orb_true_r. repeat split; reflexivity.
+  - injection Ha as <-. unfold exempt_marked_ok, dimension_matches, any_dimension_matches.
+    rewrite H2, H3. cbn [fst snd]. rewrite !orb_true_r. repeat split; reflexivity.
+  - destruct (B_epr_char c ev (spec_policy ls (cf_defaults c)) (spec_errs ls) p false H3) as (_ & E & _).
+    cbn [fst] in Ha. congruence.
+Qed.
+
+Lemma B_ctrl_unmarked c ev r w :
+  ann "exempt" (fst (validate_controller c ev r w)) = None ->
+  count_ev is_mexempt (snd (validate_controller c ev r w)) = 0.
+Proof.
+  B_ctrl_out c ev r w; intros Ha; try discriminate Ha; try reflexivity.
+  destruct (B_epr_char c ev (spec_policy ls (cf_defaults c)) (spec_errs ls) p false H3) as (_ & _ & _ & _ & _ & E & _).
+  cbn [snd]. now rewrite B_count_ev_app, E.
+Qed.
+
+Lemma C06_exemptions_proof c ev r w :
+  P06 c r w (validate c ev r w) (validate (no_exemptions c) ev r w) = true.
+Proof.
+  destruct (B_kinds r) as [Hn|[Hp|Hc]].
+  - unfold P06. now rewrite Hn.
+  - rewrite !(B_validate_pods _ _ _ _ Hp). apply B_P06_from.
+    + now apply B_pods_not_ns.
+    + apply B_pod_marked.
+    + intros Ha. split; [now apply B_vp_noex|now apply B_pod_unmarked].
+  - rewrite !(B_validate_ctrl _ _ _ _ Hc). apply B_P06_from.
+    + unfold is_controller in Hc. apply andb_true_iff in Hc. now apply negb_true_iff, Hc.
+    + apply B_ctrl_marked.
+    + intros Ha. split; [now apply B_vc_noex|now apply B_ctrl_unmarked].
+Qed.
+
+(* ------------------------------------------------------- C06: dry runs *)
+
+Lemma B_sorted_perm_eq l1 : forall l2,
+  StronglySorted sle l1 -> StronglySorted sle l2 -> Permutation l1 l2 -> l1 = l2.
+Proof.
+  induction l1 as [|a l1 IH]; intros l2 S1 S2 P.
+  - apply Permutation_nil in P. now subst.
+  - destruct l2 as [|b l2]; [apply Permutation_sym, Permutation_nil in P; discriminate|].
+    inversion S1 as [|? ? S1' F1]; inversion S2 as [|? ? S2' F2]; subst.
+    assert (E : a = b).
+    { rewrite Forall_forall in F1, F2.
+      assert (Ia : In a (b :: l2)) by (eapply Permutation_in; [exact P|now left]).
+      assert (Ib : In b (a :: l1)) by (eapply Permutation_in; [apply Permutation_sym; exact P|now left]).
+      destruct Ia as [->|Ia]; [reflexivity|]. destruct Ib as [->|Ib]; [reflexivity|].
+      apply String.leb_antisym; [apply F1, Ib|apply F2, Ia]. }
+    subst b. f_equal. apply IH; auto. eapply Permutation_cons_inv; eauto.
+Qed.
+
+Lemma B_ssort_perm_eq l l' : Permutation l l' -> ssort l = ssort l'.
+Proof.
+  intros P. apply B_sorted_perm_eq; try apply ssort_sorted.
+  eapply Permutation_trans; [apply ssort_perm|].
+  eapply Permutation_trans; [exact P|apply Permutation_sym, ssort_perm].
+Qed.
+
+Lemma B_prioritize_aux_perm c pods : forall seen a b,
+  prioritize_aux c seen pods = (a, b) ->
+  Permutation (a +:+ b) (filter (fun p => negb (s_exempt_rc c p)) pods).
+Proof.
+  induction pods as [|p rest IH]; intros seen a b H; cbn [prioritize_aux filter] in H |- *.
+  - injection H as <- <-. constructor.
+  - rewrite B_exempt_rc_spec in H. destruct (s_exempt_rc c p); cbn [negb].
+    + eapply IH; eauto.
+    + destruct (pd_ownerUID p) as [u|].
+      * destruct (mem u seen).
+        -- destruct (prioritize_aux c seen rest) as [a' b'] eqn:E. injection H as <- <-.
+           apply Permutation_sym, Permutation_cons_app, Permutation_sym. eapply IH; eauto.
+        -- destruct (prioritize_aux c (u :: seen) rest) as [a' b'] eqn:E. injection H as <- <-.
+           cbn [app]. apply perm_skip. eapply IH; eauto.
+      * destruct (prioritize_aux c seen rest) as [a' b'] eqn:E. injection H as <- <-.
+        cbn [app]. apply perm_skip. eapply IH; eauto.
+Qed.
+
+Lemma B_prioritize_perm c pods :
+  Permutation (prioritize_pods c pods) (filter (fun p => negb (s_exempt_rc c p)) pods).
+Proof.
+  unfold prioritize_pods. destruct (prioritize_aux c [] pods) as [a b] eqn:E.
+  eapply B_prioritize_aux_perm; eauto.
+Qed.
+
+Lemma B_eval_loop_names ev x pods : forall i m,
+  snd (eval_loop ev x None i pods m) = map pd_name pods.
+Proof.
+  induction pods as [|p rest IH]; intros i m; cbn [eval_loop]; [reflexivity|].
+  cbv zeta.
+  match goal with |- context[eval_loop ev x None (S i) rest ?m'] =>
+    specialize (IH (S i) m'); destruct (eval_loop ev x None (S i) rest m') as [[mm n] names] end.
+  cbn [snd map] in *. now rewrite IH.
+Qed.
+
+Lemma B_eval_events_map x names :
+  map snd (eval_events (map (fun n => EvEval x n) names)) = names.
+Proof. unfold eval_events. induction names as [|n names IH]; [reflexivity|]. cbn [map flat_map app snd]. now rewrite IH. Qed.
+
+Lemma B_epin_dry c ev r w name x pods :
+  w_pods w = Some pods -> w_expire_after w = None ->
+  List.length (filter (fun p => negb (s_exempt_rc c p)) pods) <= cf_max_pods c ->
+  exists dl, snd (evaluate_pods_in_namespace c ev r w name x)
+             = EvList dl :: map (fun n => EvEval x n) (map pd_name (prioritize_pods c pods)).
+Proof.
+  intros Hp He Hl. unfold evaluate_pods_in_namespace. rewrite Hp, He.
+  rewrite firstn_all2 by (now rewrite (Permutation_length (B_prioritize_perm c pods))).
+  pose proof (B_eval_loop_names ev x (prioritize_pods c pods) 0 []) as N.
+  destruct (eval_loop ev x None 0 (prioritize_pods c pods) []) as [[m checked] names].
+  cbn [snd] in *. subst names. eexists. reflexivity.
+Qed.
+
+(** every observation of ValidateNamespace either lists no pods or is the dry run *)
+Ltac B_ns_cases :=
+  repeat (cbv beta iota zeta;
+          match goal with
+          | |- context[match ?x with _ => _ end] => destruct x eqn:?
+          end).
+
+Lemma B_vn_shape c ev r w :
+  existsb is_list (snd (validate_namespace c ev r w)) = false
+  \/ exists name x,
+       validate_namespace c ev r w =
+       (with_warnings allowed_fresh (fst (evaluate_pods_in_namespace c ev r w name x)),
+        [EvDecode; EvDecodeOld] +:+ snd (evaluate_pods_in_namespace c ev r w name x)).
+Proof.
+  unfold validate_namespace. B_ns_cases; try (left; reflexivity).
+  match goal with E : evaluate_pods_in_namespace _ _ _ _ ?n ?x = _ |- _ =>
+    right; exists n, x; rewrite E; reflexivity end.
+Qed.
+
+Lemma B_no_list_pod c ev r w : existsb is_list (snd (validate_pod c ev r w)) = false.
+Proof.
+  B_pod_out c ev r w; try reflexivity; cbn [snd]; rewrite existsb_app;
+    destruct (B_pre_facts _ _ _ H3) as (_ & -> & _); [reflexivity|].
+  now destruct (B_epr_char c ev (spec_policy ls (cf_defaults c)) (spec_errs ls) p true H4)
+    as (_ & _ & _ & _ & _ & _ & _ & _ & ->).
+Qed.
+
+Lemma B_no_list_ctrl c ev r w : existsb is_list (snd (validate_controller c ev r w)) = false.
+Proof.
+  B_ctrl_out c ev r w; try reflexivity; cbn [snd]; rewrite existsb_app.
+  now destruct (B_epr_char c ev (spec_policy ls (cf_defaults c)) (spec_errs ls) p false H3)
+    as (_ & _ & _ & _ & _ & _ & _ & _ & ->).
+Qed.
+
+Lemma C06_dryrun_proof c ev r w : P06_dryrun c w (validate c ev r w) = true.
+Proof.
+  unfold P06_dryrun. destruct (w_pods w) as [pods|] eqn:Hp; [|reflexivity].
+  destruct (B_kinds r) as [Hn|[Hpo|Hc]].
+  - rewrite (B_validate_ns _ _ _ _ Hn).
+    destruct (B_vn_shape c ev r w) as [->|(name & x & ->)]; [reflexivity|].
+    cbn [snd].
+    destruct (Nat.leb (List.length (filter (fun p => negb (s_exempt_rc c p)) pods)) (cf_max_pods c)) eqn:Hl;
+      [|now rewrite andb_false_r].
+    destruct (w_expire_after w) as [k|] eqn:He; [now rewrite andb_false_r|].
+    apply Nat.leb_le in Hl.
+    destruct (B_epin_dry c ev r w name x pods Hp He Hl) as [dl ->].
+    cbn [app eval_events flat_map]. fold (eval_events (map (fun n => EvEval x n) (map pd_name (prioritize_pods c pods)))).
+    rewrite B_eval_events_map.
+    rewrite (B_ssort_perm_eq _ _ (Permutation_map pd_name (B_prioritize_perm c pods))).
+    rewrite (list_eqb_refl String.eqb String.eqb_refl). apply B_imp_true_r.
+  - rewrite (B_validate_pods _ _ _ _ Hpo), B_no_list_pod. reflexivity.
+  - rewrite (B_validate_ctrl _ _ _ _ Hc), B_no_list_ctrl. reflexivity.
+Qed.
+
+Lemma B_vn_no_exempt c ev r w : ann "exempt" (fst (validate_namespace c ev r w)) = None.
+Proof. unfold validate_namespace. B_ns_cases; reflexivity. Qed.
+
+Lemma C06_exempt_unevaluated_proof c ev r w d :
+  ann "exempt" (fst (validate c ev r w)) = Some d ->
+  rs_allowed (fst (validate c ev r w)) = true /\ has_eval (snd (validate c ev r w)) = false.
+Proof.
+  destruct (B_kinds r) as [Hn|[Hp|Hc]].
+  - rewrite (B_validate_ns _ _ _ _ Hn), B_vn_no_exempt. discriminate.
+  - rewrite (B_validate_pods _ _ _ _ Hp). intros H. now destruct (B_pod_marked _ _ _ _ _ H) as (_ & ? & ? & _).
+  - rewrite (B_validate_ctrl _ _ _ _ Hc). intros H. now destruct (B_ctrl_marked _ _ _ _ _ H) as (_ & ? & ? & _).
+Qed.
+
+(* ------------------------------------------------------------------ C07 *)
+
+Ltac B_guards G :=
+  let G1 := fresh "G1" in let G2 := fresh "G2" in let G3 := fresh "G3" in
+  destruct G as (G1 & G2 & G3); rewrite ?G1, ?G2, ?G3; cbn [negb andb orb].
+
+Lemma B_P07_pods c ev r w : is_pods r = true -> P07 c ev r w (validate_pod c ev r w) = true.
+Proof.
+  intros Hp. unfold P07. rewrite Hp. cbv zeta.
+  B_pod_out c ev r w.
+  - rewrite H. reflexivity.
+  - rewrite H0. cbn [negb andb]. now rewrite orb_true_r.
+  - rewrite H1. cbn [negb andb]. now rewrite andb_false_r, orb_true_r.
+  - B_guards H. rewrite H0. reflexivity.
+  - B_guards H. rewrite H0. unfold pod_priv in H1. rewrite H1. reflexivity.
+  - B_guards H. rewrite H0. unfold pod_priv in H1. rewrite H1.
+    destruct (r_object r); try destruct H2; reflexivity.
+  - B_guards H. rewrite H0. unfold pod_priv in H1. rewrite H1, H2, H3.
+    destruct (r_old r); try destruct H4; reflexivity.
+  - B_guards H. rewrite H0. unfold pod_priv in H1. rewrite H1, H2, H3, H4, H5.
+    destruct (is_nil (spec_errs ls)); reflexivity.
+  - B_guards H. rewrite H0. unfold pod_priv in H1. rewrite H1, H2, H4.
+    assert (D : match r_op r with
+                | OpUpdate => match r_old r with OPod _ => true | _ => false end
+                | _ => true end = true).
+    { unfold pod_pre in H3. destruct (r_op r); try reflexivity. now destruct H3 as (old & -> & _). }
+    rewrite D. cbn [negb andb fst snd rs_allowed shared_runtimeclass].
+    rewrite !orb_true_r, !andb_false_r. reflexivity.
+  - B_guards H. rewrite H0. unfold pod_priv in H1. rewrite H1, H2, H4.
+    destruct (B_pre_facts _ _ _ H3) as (P1 & _ & P3).
+    pose proof (B_epr_enforce_evaluated c ev (spec_policy ls (cf_defaults c)) (spec_errs ls) p H4) as EE.
+    destruct (B_epr_char c ev (spec_policy ls (cf_defaults c)) (spec_errs ls) p true H4)
+      as (E1 & _ & E3 & _ & E5 & _).
+    set (o := evaluate_pod_request c ev (spec_policy ls (cf_defaults c)) (spec_errs ls) p true) in *.
+    assert (D : match r_op r with
+                | OpUpdate => match r_old r with OPod _ => true | _ => false end
+                | _ => true end = true).
+    { unfold pod_pre in H3. destruct (r_op r); try reflexivity. now destruct H3 as (old & -> & _). }
+    assert (I : match r_op r with
+                | OpUpdate => match r_old r with OPod old => negb (s_significant p old) | _ => false end
+                | _ => false end = false).
+    { unfold pod_pre in H3. destruct (r_op r); try reflexivity. destruct H3 as (old & -> & -> & _). reflexivity. }
+    rewrite D, I. cbn [negb andb orb fst snd].
+    rewrite B_eval_events_app, existsb_app, EE, orb_true_r, E1, E3, B_count_ev_app, E5.
+    rewrite (P3 (is_merror false)) by reflexivity.
+    unfold violates. cbn [negb orb andb].
+    destruct (forallb cr_allowed (ev (enforce (spec_policy ls (cf_defaults c))) p));
+      destruct (is_nil (spec_errs ls)); reflexivity.
+Qed.
+
+Lemma B_ctrl_kinds r : is_controller r = true -> is_pods r = false /\ is_namespaces r = false.
+Proof.
+  unfold is_controller. intros H. apply andb_true_iff in H. destruct H as [H1 H2].
+  now apply negb_true_iff in H1, H2.
+Qed.
+
+Lemma B_request_pod_cases r p :
+  request_pod r = Some p -> r_object r = OPod p \/ exists k, r_object r = OController k (Some p).
+Proof.
+  unfold request_pod. destruct (r_object r) as [m| |q|n l|k [t|]|s]; try discriminate; intros [= ->]; eauto.
+Qed.
+
+Lemma B_P07_ctrl c ev r w : is_controller r = true -> P07 c ev r w (validate_controller c ev r w) = true.
+Proof.
+  intros Hc. destruct (B_ctrl_kinds r Hc) as [Hp _]. unfold P07. rewrite Hp, Hc. cbv zeta.
+  B_ctrl_out c ev r w.
+  - rewrite H. reflexivity.
+  - rewrite H, H0. reflexivity.
+  - rewrite H, H0, H1. reflexivity.
+  - B_guards H. rewrite H0. reflexivity.
+  - B_guards H. rewrite H0. unfold ctrl_priv in H1. rewrite H1. reflexivity.
+  - B_guards H. rewrite H0. unfold ctrl_priv in H1. rewrite H1.
+    destruct (r_object r); try destruct H2; reflexivity.
+  - B_guards H. rewrite H0. unfold ctrl_priv in H1. rewrite H1, H2. reflexivity.
+  - B_guards H. rewrite H0. unfold ctrl_priv in H1. rewrite H1.
+    destruct (B_request_pod_cases r p H2) as [->|[k ->]]; rewrite H3;
+      cbn [negb andb fst snd rs_allowed shared_runtimeclass]; now rewrite andb_false_r.
+  - B_guards H. rewrite H0. unfold ctrl_priv in H1. rewrite H1.
+    destruct (B_epr_char c ev (spec_policy ls (cf_defaults c)) (spec_errs ls) p false H3)
+      as (E1 & _ & E3 & _ & E5 & _ & _ & E8 & _).
+    set (o := evaluate_pod_request c ev (spec_policy ls (cf_defaults c)) (spec_errs ls) p false) in *.
+    cbn [fst snd].
+    destruct (B_request_pod_cases r p H2) as [->|[k ->]]; rewrite H3, E1, B_has_eval_app, E8, E3, B_count_ev_app, E5;
+      destruct (is_nil (spec_errs ls)); reflexivity.
+Qed.
+
+Lemma B_P07_ns c ev r w : is_namespaces r = true -> P07 c ev r w (validate_namespace c ev r w) = true.
+Proof.
+  intros Hn. unfold P07.
+  assert (Hp : is_pods r = false).
+  { destruct (is_pods r) eqn:E; [|reflexivity]. apply B_pods_not_ns in E. congruence. }
+  assert (Hc : is_controller r = false) by (unfold is_controller; now rewrite Hn, andb_false_r).
+  rewrite Hp, Hc. cbv zeta.
+  destruct (negb (String.eqb (r_subresource r) "")) eqn:Hs; [reflexivity|].
+  destruct (r_object r) as [m| |q|name ls|k t|s] eqn:Ho; try reflexivity.
+  - unfold validate_namespace. rewrite Hs, Ho. reflexivity.
+  - assert (K : imp (existsb is_list (snd (validate_namespace c ev r w)))
+                    (rs_allowed (fst (validate_namespace c ev r w)) &&
+                     match w_pods w with
+                     | None => list_eqb String.eqb (rs_warnings (fst (validate_namespace c ev r w)))
+                                 ["failed to list pods while checking new PodSecurity enforce level"]
+                     | Some _ => true
+                     end) = true).
+    { destruct (B_vn_shape c ev r w) as [->|(nm & x & ->)]; [reflexivity|].
+      cbn [fst snd rs_allowed rs_warnings with_warnings allowed_fresh andb].
+      destruct (w_pods w) as [pods|] eqn:Hw; [apply B_imp_true_r|].
+      unfold evaluate_pods_in_namespace. rewrite Hw. reflexivity. }
+    destruct (r_op r) as [| |raw] eqn:Hop; try exact K.
+    destruct (r_old r) as [m| |q|oname ols|k t|s] eqn:Hold; try exact K.
+    unfold validate_namespace. rewrite Hs, Ho, Hop, Hold.
+    destruct (policy_to_evaluate ls (cf_defaults c)) as [np ne]. reflexivity.
+Qed.
+
+Lemma C07_faults_proof c ev r w : P07 c ev r w (validate c ev r w) = true.
+Proof.
+  destruct (B_kinds r) as [Hn|[Hp|Hc]].
+  - rewrite (B_validate_ns _ _ _ _ Hn). now apply B_P07_ns.
+  - rewrite (B_validate_pods _ _ _ _ Hp). now apply B_P07_pods.
+  - rewrite (B_validate_ctrl _ _ _ _ Hc). now apply B_P07_ctrl.
+Qed.
+
+Lemma C07_controller_fail_open_proof c ev r w :
+  is_controller r = true -> rs_allowed (fst (validate c ev r w)) = true.
+Proof.
+  intros Hc. pose proof (C07_faults_proof c ev r w) as H. unfold P07 in H.
+  destruct (B_ctrl_kinds r Hc) as [Hp _]. rewrite Hp, Hc in H.
+  apply andb_true_iff in H. apply H.
+Qed.
+
+Lemma B_vn_allowed_indep c ev ev' r w w' :
+  rs_allowed (fst (validate_namespace c ev r w)) = rs_allowed (fst (validate_namespace c ev' r w')).
+Proof. unfold validate_namespace. B_ns_cases; reflexivity. Qed.
+
+(** the admission decision on a namespace request reads no oracle answer and no evaluator at all *)
+Lemma C07_namespace_allow_independent_proof c ev ev' r w w' :
+  is_namespaces r = true ->
+  rs_allowed (fst (validate c ev r w)) = rs_allowed (fst (validate c ev' r w')).
+Proof. intros Hn. rewrite !(B_validate_ns _ _ _ _ Hn). apply B_vn_allowed_indep. Qed.
+
+Lemma C07_namespace_never_blocked_by_pods_proof c ev ev' r w w' :
+  is_namespaces r = true -> w_ns w = w_ns w' -> w_now w = w_now w' ->
+  rs_allowed (fst (validate c ev r w)) = rs_allowed (fst (validate c ev' r w')).
+Proof. intros Hn _ _. now apply C07_namespace_allow_independent_proof. Qed.
+
+Lemma C07_pod_unevaluated_proof c ev r w :
+  is_pods r = true -> rs_allowed (fst (validate c ev r w)) = true ->
+  s_ignored_sub (r_subresource r) = true \/ is_some (ann "exempt" (fst (validate c ev r w))) = true
+  \/ (exists ls, w_ns w = Some ls /\ spec_errs ls = [] /\ s_fully_privileged (spec_policy ls (cf_defaults c)) = true)
+  \/ (exists ls p old, w_ns w = Some ls /\ r_object r = OPod p /\ r_old r = OPod old /\ r_op r = OpUpdate
+                       /\ s_significant p old = false)
+  \/ (exists ls p, w_ns w = Some ls /\ r_object r = OPod p
+                   /\ violates ev (enforce (spec_policy ls (cf_defaults c))) p = false).
+Proof.
+  intros Hp. rewrite (B_validate_pods _ _ _ _ Hp).
+  B_pod_out c ev r w; intros Ha; try discriminate Ha.
+  - now left.
+  - right; left; reflexivity.
+  - right; left; reflexivity.
+  - right; right; left. exists ls. unfold pod_priv in H1. apply andb_true_iff in H1. destruct H1 as [N F].
+    apply is_nil_true in N. auto.
+  - right; right; right; left. exists ls, p, old. auto.
+  - right; left; reflexivity.
+  - right; right; right; right. exists ls, p. repeat split; try assumption.
+    destruct (B_epr_char c ev (spec_policy ls (cf_defaults c)) (spec_errs ls) p true H4) as (E1 & _).
+    cbn [fst] in Ha. rewrite Ha in E1. unfold violates. cbn [negb orb] in E1. now rewrite <- E1.
+Qed.
